@@ -188,6 +188,22 @@ func (vc *VC) findImport(pkg *types.Package, name string) *types.Package {
 			return p
 		}
 	}
+	// import aliases used by the package's source files
+	for _, pp := range vc.prog.pkgs {
+		if pp.Types != pkg {
+			continue
+		}
+		for _, f := range pp.Syntax {
+			for _, im := range f.Imports {
+				if im.Name != nil && im.Name.Name == name {
+					path := strings.Trim(im.Path.Value, "\"")
+					if p := vc.prog.byPath[path]; p != nil {
+						return p
+					}
+				}
+			}
+		}
+	}
 	// also search all loaded packages by name for convenience in spec files
 	if p := vc.prog.pkgByName[name]; p != nil {
 		return p
@@ -860,6 +876,16 @@ func (vc *VC) trCall(x *ECall, env *Env) TV {
 		}
 		if isStruct(pt.Elem()) || isArray(pt.Elem()) {
 			return a
+		}
+		// captured single-assignment variable of a closure
+		if vc.fn != nil && strings.HasPrefix(a.S, "fv_") {
+			for _, fv := range vc.fn.FreeVars {
+				if "fv_"+mangle(fv.Name()) == a.S {
+					if c, ok := vc.freeVarConst(fv, pt.Elem()); ok {
+						return TV{T: pt.Elem(), S: c}
+					}
+				}
+			}
 		}
 		return TV{T: pt.Elem(), S: vc.envHeapRead(env, cellKey(pt.Elem()), pt.Elem(), a.S)}
 	case "closed":
